@@ -257,7 +257,8 @@ func c07Units(thorough bool) []c07Unit {
 	// (a) grammar pointers
 	for oi, oid := range oids {
 		oi, oid := oi, oid
-		for _, nameSet := range [][]string{{"a"}, {"foo_bar1", "a"}} {
+		// names with '-' and '.' are valid: docs/spec.md allows both in keys and git-lfs writes them for lfs.extension.<such-a-name>
+		for _, nameSet := range [][]string{{"a"}, {"foo_bar1", "a"}, {"case-inverter", "zip.v2", "x-1.y_2"}} {
 			nameSet := nameSet
 			units = append(units, c07Unit{fmt.Sprintf("grammar/oid%d/names%d", oi, len(nameSet)), func(r *vx.Result) {
 				for _, size := range sizes {
@@ -332,6 +333,7 @@ func c07Units(thorough bool) []c07Unit {
 		{Oid: oids[2], Size: 10, Exts: []c07Ext{{0, "a", c07ExtOid(0)}}},
 		{Oid: oids[2], Size: 999, Exts: []c07Ext{{1, "foo_bar1", c07ExtOid(1)}, {5, "b", c07ExtOid(5)}}},
 		{Oid: oids[0], Size: 77, Exts: []c07Ext{{0, "a", c07ExtOid(0)}, {1, "b", c07ExtOid(1)}, {9, "c", c07ExtOid(9)}}},
+		{Oid: oids[1], Size: 4242, Exts: []c07Ext{{0, "case-inverter", c07ExtOid(0)}, {2, "zip.v2", c07ExtOid(2)}}},
 	}
 	for bi, b := range bases {
 		bi, b := bi, b
@@ -427,7 +429,7 @@ func c07Units(thorough bool) []c07Unit {
 func TestVerifC07(t *testing.T) {
 	c := vx.NewCheck("C07", "exploration")
 	c.Rule = "grammar pointers (3 oids x 5 sizes x all priority subsets of size<=3 plus the full set x 2 name sets, empty pointer) round-tripped against an independent spec encoder; " +
-		"every single-byte delete/duplicate/substitute/insert (14-symbol palette) at every position, every line-level and value-level edit and value-then-line edit pairs of 6 canonical bases; " +
+		"every single-byte delete/duplicate/substitute/insert (14-symbol palette) at every position, every line-level and value-level edit and value-then-line edit pairs of 7 canonical bases (one with extension names containing - and .); " +
 		"all strings of length<=4 over 7 symbols in 6 contexts; thorough adds all ordered pairs of byte edits on 2 bases. " +
 		"distinct_nontrivial = distinct grammar pointers round-tripped + distinct input strings the decoder ACCEPTED (each had oid/size/extension order and the Canonical flag checked against the spec model); rejected inputs only count as evaluations"
 	c.Assumptions = []string{"a valid pointer is < 1024 bytes (docs/spec.md); size 0 is only the empty pointer", "reader delivers the text in one Read (chunking is C08's subject)"}
